@@ -11,7 +11,7 @@ func init() {
 			"(5) destructive file operations on database files are exactly the classified sites; " +
 			"(6) recovery hands every recovered memtable to the read path and restores the sequence counter from the replay maximum; (7) the newest log file is reused for appending only behind a clean entry-boundary scan (so that writes acknowledged after a recovery are themselves recoverable); no read after the first of a record can leave as a clean io.EOF; (8) shared with C03/C09: the batch pre-validation uses writeRecord's own size formula and the buffer provision covers it; fragment writer and reader agree on chunk boundaries.",
 		NotDecided: "the state at arbitrary stop instants, torn writes, directory fsync, repeated crash/recover cycles — all need execution under fault injection.",
-		Rules:      []func(*Ctx, *Reporter){ruleStWriteAhead, ruleWalSyncBeforeAck, ruleStRotation, ruleStRecovery, ruleSstFinish, ruleDestructiveOps, ruleStFlushPublish, ruleReuseValidatesTail, ruleWalBatch, ruleWalFragmentation},
+		Rules:      []func(*Ctx, *Reporter){ruleStWriteAhead, ruleWalSyncBeforeAck, ruleStRotation, ruleStRecovery, ruleSstFinish, ruleDestructiveOps, ruleStFlushPublish, ruleReuseValidatesTail, ruleWalBatch, ruleWalFragmentation, ruleRecoveryLastTableMutable, ruleWalFileWriters, ruleWalErrorClasses, subRules(ruleLayerOrder, "newest-is-last")},
 	})
 	register(&PropertyDef{
 		ID: "C03",
@@ -21,7 +21,7 @@ func init() {
 			"(4) AppendBatch: no flush/sync between the record writes of a batch, every record carries one loop-invariant sequence number, and every input-dependent rejection of writeRecord is tested with the identical size formula before the first record is written; " +
 			"(5) Buffer.Put/Delete copy key and value before storing them (capture at call time) and assign the same map under string(key) (last operation wins); Rollback clears the buffer before releasing the lock; a successful transactional Put/Delete has buffered exactly that operation; (6) shared with C02/C10: a log file is reused for appending only behind a clean tail (a torn batch is never followed by new commits in the same file).",
 		NotDecided: "atomicity across a crash (the log format has no batch frame: a torn batch cannot be recognised at replay — design remark, needs a crash to observe); concurrent-reader interleavings.",
-		Rules:      []func(*Ctx, *Reporter){ruleTxBufferIsolation, ruleTxApplyInside, ruleStSingleWriter, ruleStEffectOnce, ruleWalBatch, ruleTxBufferCapture, ruleTxRollbackClears, ruleTxOpsBuffered, ruleReuseValidatesTail},
+		Rules:      []func(*Ctx, *Reporter){ruleTxBufferIsolation, ruleTxApplyInside, ruleStSingleWriter, ruleStEffectOnce, ruleWalBatch, ruleTxBufferCapture, ruleTxRollbackClears, ruleTxOpsBuffered, ruleReuseValidatesTail, ruleWalFileWriters},
 	})
 	register(&PropertyDef{
 		ID: "C06",
@@ -91,7 +91,7 @@ func init() {
 			"(6) flush writes every collected entry, tombstones included, with its own sequence number; the tombstone marker constant is shared by block writer and reader; " +
 			"(7) the SSTable list is given a recency order when loaded from disk; (8) a successful transactional Put/Delete has buffered exactly that operation and pending operations leave the buffer only through Clear; immutable memtables leave the pool only into the flush path; (9) shared with C09: the buffered writer is never replaced without a flush and the fragment writer/reader agree on chunk boundaries (large values survive a reopen).",
 		NotDecided: "that the bytes returned equal the bytes put for every program (values); block/index seek landing inside SSTables (value-level binary search — the pinned tree gets this wrong, declared under C11); effects of memtable-size configurations.",
-		Rules:      []func(*Ctx, *Reporter){ruleLayerOrder, ruleTombstoneShortCircuit, ruleMemComparator, ruleMemFind, ruleMemInsert, ruleFlushRules, ruleStStamps, ruleEmptyNotDeleted, ruleTombstoneMarker, ruleRecencyAtLoad, ruleTxOpsBuffered, ruleWalNoBufferDrop, ruleWalFragmentation, ruleSortKeysFromSortedSlice, ruleMemTableGetTable},
+		Rules:      []func(*Ctx, *Reporter){ruleLayerOrder, ruleTombstoneShortCircuit, ruleMemComparator, ruleMemFind, ruleMemInsert, ruleFlushRules, ruleStStamps, ruleEmptyNotDeleted, ruleTombstoneMarker, ruleRecencyAtLoad, ruleTxOpsBuffered, ruleWalNoBufferDrop, ruleWalFragmentation, ruleSortKeysFromSortedSlice, ruleMemTableGetTable, ruleRecoveryLastTableMutable},
 	})
 	register(&PropertyDef{
 		ID: "C05",
@@ -105,4 +105,21 @@ func init() {
 		NotDecided: "exactness of the key set for all data sets, seek landing inside SSTable blocks (see C11), scans concurrent with writers beyond the snapshot rule.",
 		Rules:      []func(*Ctx, *Reporter){ruleSourceOrder, ruleMergePolicy, ruleBounds, ruleFilter, ruleScanConsumers, ruleMemVisibility, ruleTxOwnWrites},
 	})
+}
+
+// subRules runs a rule function and keeps only the obligations of the named rules (for cross-listing a part of a rule
+// function under another property).
+func subRules(fn func(*Ctx, *Reporter), ids ...string) func(*Ctx, *Reporter) {
+	return func(c *Ctx, r *Reporter) {
+		tmp := NewReporter(r.Property)
+		fn(c, tmp)
+		for _, o := range tmp.Obls {
+			for _, id := range ids {
+				if o.Rule == r.Property+"/"+id {
+					r.Rule(id, 1)
+					r.add(o.Status, o.Construct, o.Pos, o.Detail, o.Path)
+				}
+			}
+		}
+	}
 }
